@@ -140,4 +140,16 @@ def _get(x: Any, t: Any) -> Any:
 
 
 def new_message(mod: Any, m: Message) -> Any:
-    return getattr(mod_for(mod, m), ref.py_class_name(m))()
+    """Instantiate the generated class of message m with defaults (documented API).
+    A failure here is a failure of the code under test, not of the harness."""
+    from .runner import Violation
+
+    name = ref.py_class_name(m)
+    try:
+        cls = getattr(mod_for(mod, m), name)
+    except AttributeError:
+        raise Violation(f"generated Python module has no class {name} (documented name of message {m.name})", signature="py-class-missing")
+    try:
+        return cls()
+    except Exception as e:
+        raise Violation(f"generated Python class {name}() cannot be instantiated with defaults: {type(e).__name__}: {e}", signature=f"py-instantiate:{type(e).__name__}")
